@@ -89,6 +89,11 @@ def sweep_specs(rng):
     for kind in sorted(c12_gen.RAISE_KINDS) + sorted(c12_gen.EXPR_KINDS):
         out.append({'fns': [leaf(kind=kind, form='assign')], 'x': 1})
         out.append({'fns': [caller('direct', form='assign'), leaf(kind=kind, form='return')], 'x': 1})
+    for kind in sorted(c12_gen.BLOCK_KINDS):
+        for ctxs in ([], ['for'], ['if', 'while-continue']):
+            out.append({'fns': [{'contexts': ctxs, 'fillers': True, 'sub': rng.randrange(1 << 30), 'kind': kind, 'form': 'block'}], 'x': 2})
+        out.append({'fns': [caller('direct', form='assign'),
+                            {'contexts': [], 'fillers': False, 'sub': rng.randrange(1 << 30), 'kind': kind, 'form': 'block'}], 'x': 2})
     for link in sorted(set(c12_gen.LINKS)) + sorted(c12_gen.EXTRA_LINKS):
         out.append({'fns': [caller(link, form='assign'), leaf(kind='KeyError', form='assign')], 'x': 2})
         out.append({'fns': [caller('direct', form='expr'), caller(link, form='return'), leaf(kind='raise-ValueError')], 'x': 2})
@@ -176,7 +181,7 @@ def check(run):
                 'value + seeded random stream; non-trivial = both runs raise, the entry point was converted; distinct = '
                 '(links, forms, contexts, kind) signature'
                 % (len(set(c12_gen.LINKS)) + len(c12_gen.EXTRA_LINKS), len(c12_gen.FORMS), len(set(c12_gen.CONTEXTS)),
-                   len(c12_gen.RAISE_KINDS) + len(c12_gen.EXPR_KINDS)))
+                   len(c12_gen.RAISE_KINDS) + len(c12_gen.EXPR_KINDS) + len(c12_gen.BLOCK_KINDS)))
     run.assumptions += [
         'the traceback CPython produces for generated code (frame order, one frame per activation, file/line/name of each frame) '
         'is an input of the model; its shape for converted call chains (ConvLevel: pre ++ site ++ post) is validated on every case '
@@ -256,7 +261,7 @@ def process(run, cases, corr_every=1, full=True):
             depth_hist[s['depth']] = depth_hist.get(s['depth'], 0) + 1
             unit_hist['%d/%d' % (s['conv_units'], s['units'])] = unit_hist.get('%d/%d' % (s['conv_units'], s['units']), 0) + 1
         if len(run.samples) < 4 and nontriv and spec and len(spec['fns']) >= 2 and i % 7 == 0:
-            run.sample({'case': sig, 'source_tail': res['src'].split('class Obj')[1][-700:], 'outcome': s.get('type'), 'units': s.get('units')})
+            run.sample({'case': sig, 'source_tail': res['src'].split('return fn(x)')[-1][-700:], 'outcome': s.get('type'), 'units': s.get('units')})
         for f in res['fails']:
             pending.append((i, case, res, f))
         for c in res['corr']:
@@ -429,5 +434,5 @@ def replay(run, path):
     results = process(run, [dict(case, tag='replay')], 1, full=False)
     res = results[0]
     print(json.dumps({'status': res['status'], 'oracle': res['fails'], 'stats': res['stats'],
-                      'source': res.get('src', '').split('class Obj')[-1][-1500:]}, indent=1, default=str))
+                      'source': res.get('src', '').split('return fn(x)')[-1][-1500:]}, indent=1, default=str))
     return run.finish()
